@@ -5,6 +5,7 @@ import (
 	"fmt"
 	"math/big"
 	"sort"
+	"strings"
 	"time"
 
 	"verifharness/chain"
@@ -79,6 +80,16 @@ func runC16(c *fw.Case) {
 			avp.VestingPools = append(avp.VestingPools, mkPool(fmt.Sprintf("pool%d", j), typeNames[r.Intn(2)], gen.BigAmount(r, 18)))
 		}
 		avps = append(avps, avp)
+		if r.Intn(12) == 0 {
+			// the legacy store is keyed by the owner string as it was written (a genesis file
+			// may spell an address in upper case): a second entry of the same address
+			up := &vesttypes.AccountVestingPools{Owner: strings.ToUpper(k.Bech())}
+			for j := 0; j < 1+r.Intn(2); j++ {
+				up.VestingPools = append(up.VestingPools, mkPool(fmt.Sprintf("upool%d", j), typeNames[r.Intn(2)], gen.BigAmount(r, 18)))
+			}
+			avps = append(avps, up)
+			c.Count("owners_in_two_spellings", 1)
+		}
 	}
 	var valLocked *big.Int
 	if withOwner {
@@ -253,7 +264,7 @@ func runC16(c *fw.Case) {
 	totalLocked := new(big.Int)
 	for _, avp := range avps {
 		for _, p := range avp.VestingPools {
-			prePools[pk{avp.Owner, p.Name}] = p
+			prePools[pk{strings.ToLower(avp.Owner), p.Name}] = p // owners compared by address, not by spelling
 			totalLocked.Add(totalLocked, p.GetCurrentlyLocked().BigInt())
 		}
 	}
@@ -270,10 +281,10 @@ func runC16(c *fw.Case) {
 	dupNames := false
 	for _, avp := range postAll {
 		for _, p := range avp.VestingPools {
-			if _, dup := post[pk{avp.Owner, p.Name}]; dup {
+			if _, dup := post[pk{strings.ToLower(avp.Owner), p.Name}]; dup {
 				dupNames = true
 			}
-			post[pk{avp.Owner, p.Name}] = p
+			post[pk{strings.ToLower(avp.Owner), p.Name}] = p
 			postLocked.Add(postLocked, p.GetCurrentlyLocked().BigInt())
 			if p.Withdrawn.IsNegative() || p.Sent.IsNegative() || p.Withdrawn.Add(p.Sent).GT(p.InitiallyLocked) {
 				c.Violate("C16/pool-bounds", "after the upgrade pool %s of %s has initially_locked=%s sent=%s withdrawn=%s", p.Name, short(avp.Owner, 12), p.InitiallyLocked, p.Sent, p.Withdrawn)
